@@ -241,8 +241,8 @@ func errConversions(p *Program, fn *ssa.Function) map[string]string {
 				eq := errEq(fn, ev)
 				region := nonNilRegion(eqEdge, eq)
 				for _, r := range allReturns(fn) {
-					if region[r.Block()] && len(r.Results) > 0 && isErrorType(r.Results[len(r.Results)-1].Type()) &&
-						!definitelyNonNil(r.Results[len(r.Results)-1], eq, region, eqEdge, map[ssa.Value]bool{}) {
+					if region[r.Block()] && len(r.Results) > 0 && isErrorType(retVal(r, len(r.Results)-1).Type()) &&
+						!definitelyNonNil(retVal(r, len(r.Results)-1), eq, region, eqEdge, map[ssa.Value]bool{}) {
 						out[sentinel.Pkg.Pkg.Name()+"."+sentinel.Name()] = p.Pos(cmp.Pos())
 					}
 				}
@@ -407,8 +407,8 @@ func checkSizeAccounting(c *Ctx, rule string, writeTo *ssa.Function, scope []*ss
 	}
 	// WriteTo's size results
 	for _, r := range allReturns(writeTo) {
-		sz := r.Results[0]
-		errOp := r.Results[1]
+		sz := retVal(r, 0)
+		errOp := retVal(r, 1)
 		key := fmt.Sprintf("WriteTo return (nil-error=%v)", isNilConst(errOp))
 		if k, ok := constInt(sz); ok && k == 0 {
 			// allowed before anything was written: must not be reachable after a wrapper Write... header failure returns 0
@@ -425,7 +425,7 @@ func checkSizeAccounting(c *Ctx, rule string, writeTo *ssa.Function, scope []*ss
 	// a nil-error return must only be reachable via the normal exit of the outer track loop
 	loops := naturalLoops(writeTo)
 	for _, r := range allReturns(writeTo) {
-		if !isNilConst(r.Results[1]) {
+		if !isNilConst(retVal(r, 1)) {
 			continue
 		}
 		// find the outermost loop that contains a call into the chunk flush (any call) - use the last top-level loop
